@@ -35,7 +35,10 @@ def setup_worker():
 def cases(tier):
     return st.one_of(
         c01.vector_case(FORMATS, tier, solid_only=True, allow_groups=False),
+        c01.vector_case(FORMATS, tier, solid_only=True, allow_groups=False),
         c01.vector_case(FORMATS, tier),
+        c01.vector_case(FORMATS, tier),
+        c01.grid_case(FORMATS, tier),
     )
 
 
